@@ -1,11 +1,20 @@
 """C03 — every single typing error in a valid IBAN is detected."""
 from __future__ import annotations
 
+from ..srcmodel import AnalysisError
+
 from ..vmodel import IbanModel
 from .. import iban_rules as R
 
 
 def run(ctx, report):
+    # premise of the symbolic model below (it starts from the cleaned text): the object carries clean(raw), and nothing reads the
+    # raw parameter again (what clean() removes is C10's / C01's concern, not this property's).
+    from .c10 import normalisation_rules
+    try:
+        normalisation_rules(ctx, report, "R03-P0", parts=("norm",))
+    except AnalysisError as e:
+        report.notes.append(f"normalisation premise not decided: {e}")
     m = IbanModel(ctx, with_validate=False)
     report.explanation = (
         "Premises of the mod-97 detection lemma are decided on the source: every accepting path is guarded by the mod-97 condition (P1); the letter "
